@@ -10,7 +10,7 @@
    calls of the exporter function made by the model of retrySender.Send, [verdict_of] the class of
    the error it returns.  [nth_error (steps_of sc script) k = Some st] reads "attempt k is made
    and st records it". *)
-From Verif Require Import Common.Base Generated.C05BackoffValidate Generated.C05RetryGo C05.Model C05.Proofs C05.Proofs2 C05.Tie.
+From Verif Require Import Common.Base Generated.C05BackoffValidate Generated.C05RetryGo C05.Model C05.Proofs C05.Proofs2 C05.Tie C05.Harness C05.Clauses C05.ClausesProofs.
 Local Open Scope Z_scope.
 
 (* ---- clause 1: retried if and only if ... ---------------------------------------------------------- *)
@@ -316,6 +316,52 @@ Theorem tie_requests_handle_errors :
   forallb (has m_OnError) [logsRequest_methods; tracesRequest_methods; metricsRequest_methods] = true.
 Proof. exact Tie.tie_requests_handle_errors. Qed.
 
+(* "... so that a persistent queue keeps the request": persistentQueue.onDone keeps an item iff IsShutdownErr of
+   the error Send returned (pq_keeps).  A request whose reached wait is overtaken by shutdown is kept; a delivered
+   or finally rejected one is not (unless the exporter's own last error is/claims to be a shutdown error). *)
+Theorem interrupted_request_is_kept : forall sc script k st s,
+  nth_error (steps_of sc script) k = Some st -> reaches_wait sc st ->
+  sc_stop sc = Some s -> Z.max (s_end st) s <= s_end st + s_delay st ->
+  (forall c, ctx_done sc = Some c -> Z.max (s_end st) s < Z.max (s_end st) c) ->
+  request_kept sc script = true.
+Proof. exact interrupted_request_is_kept_l. Qed.
+
+Theorem finished_request_not_kept : forall sc script,
+  verdict_of sc script = VOk \/
+  (verdict_of sc script <> VShutdown /\ is_shutdown (last_err (steps_of sc script)) = false) ->
+  request_kept sc script = false.
+Proof. exact finished_request_not_kept_l. Qed.
+
+(* the backend outcome "context expiry": an attempt cut short by its context (per-attempt timeout, caller deadline
+   or cancellation) ends at that instant with a plain error: not permanent, no throttle, no remainder, not
+   shutdown-classified — it is retried under exactly the conditions of retry_iff, like any transient failure *)
+Theorem context_expiry_is_transient : forall sc s a c,
+  att_done sc s = Some c -> c < s + a_dur a ->
+  effective sc s a = (Z.max c s, RErr EBase) /\ is_permanent EBase = false /\ throttle_of EBase = None /\
+  (forall sg, partial_of sg EBase = None) /\ is_shutdown EBase = false.
+Proof. exact context_expiry_is_transient_l. Qed.
+
+(* ---- the decidable clause checker run by the check over every observed case (C05/Clauses.v) ------------------ *)
+(* what prop_ok = true means, on the timeline reconstructed from the observation (scenario + logged delays):
+   every attempt that was followed by another satisfied "retried only if enabled, failed non-permanently, wait
+   entered, fits budget and deadline, context not over, not shutting down"; every entered wait was at least the
+   throttle delay and fitted; no retry started at or after the shutdown instant *)
+Theorem clause_checker_sound : forall h payload script atts delays final,
+  zn h 0 = 0 ->
+  prop_ok (h, (payload, (script, (atts, (delays, final))))) = true ->
+  let sc := scenario_of h payload delays in
+  let l := rebuild sc (map attempt_of script) atts delays 0%nat 0 in
+  (forall st st', In (st, st') (pairs l) -> Followed sc st) /\
+  (forall st, In st l -> WaitOk sc st) /\
+  (forall st, In st l -> AfterStopOk sc st).
+Proof. exact prop_ok_sound_l. Qed.
+
+Theorem clause_followed_reflects : forall sc st, followed_ok sc st = true <-> Followed sc st.
+Proof. exact followed_ok_iff. Qed.
+
+Theorem clause_after_stop_reflects : forall sc st, after_stop_ok sc st = true <-> AfterStopOk sc st.
+Proof. exact after_stop_ok_iff. Qed.
+
 (* ---- per-attempt timeout -------------------------------------------------------------------------------------- *)
 Theorem timeout_per_attempt : forall sc script k st,
   nth_error (steps_of sc script) k = Some st ->
@@ -365,4 +411,10 @@ Print Assumptions tie_is_permanent.
 Print Assumptions tie_wrapper_types.
 Print Assumptions tie_signal_errors_carry_data.
 Print Assumptions tie_requests_handle_errors.
+Print Assumptions interrupted_request_is_kept.
+Print Assumptions finished_request_not_kept.
+Print Assumptions context_expiry_is_transient.
+Print Assumptions clause_checker_sound.
+Print Assumptions clause_followed_reflects.
+Print Assumptions clause_after_stop_reflects.
 Print Assumptions timeout_per_attempt.
